@@ -909,6 +909,9 @@ impl Host {
                     Err(e) => {
                         self.drain_log();
                         self.push_err(&e);
+                        if !self.story.verif_async_active() {
+                            self.record_stop();
+                        }
                     }
                 }
             }
